@@ -19,6 +19,10 @@ type Violation struct {
 // choices are free).
 type Explorer struct {
 	Bound   int // max preemptions per execution; <0 = unbounded
+	// FreeBound, when > 0, additionally bounds the number of non-default
+	// choices among enabled threads at points where the running thread blocked
+	// or exited (switches that cost no preemption). 0 = unlimited.
+	FreeBound int
 	Permute bool
 	Clock   int64
 	StepCap int
@@ -147,11 +151,14 @@ func (e *Explorer) Explore(prefix []int, split bool) (children [][]int) {
 	} else {
 		e.Outcomes[outcome]++
 	}
-	pre := 0
+	pre, free := 0, 0
 	for i := 0; i < len(prefix); i++ {
 		p := x.Points[i]
 		if p.Kind == 0 && p.CurEn && p.Chosen != 0 {
 			pre++
+		}
+		if p.Kind == 0 && !p.CurEn && p.Chosen != 0 {
+			free++
 		}
 	}
 	for i := len(prefix); i < len(x.Points); i++ {
@@ -159,6 +166,9 @@ func (e *Explorer) Explore(prefix []int, split bool) (children [][]int) {
 		cost := pre
 		if p.Kind == 0 && p.CurEn {
 			cost++
+		}
+		if e.FreeBound > 0 && p.Kind == 0 && !p.CurEn && free+1 > e.FreeBound {
+			continue
 		}
 		if e.Bound < 0 || cost <= e.Bound {
 			for alt := 1; alt < p.N; alt++ {
